@@ -12,7 +12,7 @@ KNOWN = [{
 
 def run(tier, replay):
     return ledgercheck.run_ledger_check(
-        "C04", tier, replay, "c03", [L.oracle_c04],
+        "C04", tier, replay, "c04", [L.oracle_c04],
         "Oracle: after every full refresh each record of the account is Unspent/Locked iff its commitment is in the chain's UTXO "
         "set (chain queried directly by the harness); the balance figures for 0/1/3 minimum confirmations equal an independent "
         "partition of the snapshot's records; after the final owner::update_wallet_state (histories without cancels) confirmed "
